@@ -96,6 +96,27 @@ class Ctx:
             return out
         return self.call(run)
 
+    def batch_equal(self, clause, fn, items, want_fn, stop_at_first=True, **detail):
+        """fn(item) must return want_fn(item) for every item.  All calls run under one watchdog; only when
+        something is off they are re-run one by one to name the offending item (first failure reported)."""
+        items = list(items)
+        b = self.call(lambda: [fn(i) for i in items])
+        self.ops += max(0, len(items) - 1)
+        if b.ok and all(g is want_fn(i) or g == want_fn(i) for g, i in zip(b.value, items)):
+            return True
+        for i in items:
+            r = self.call(fn, i)
+            if not self.returns(r, clause, item=i, **detail):
+                if stop_at_first:
+                    return False
+                continue
+            w = want_fn(i)
+            if not (r.value is w or r.value == w):
+                self.fail(clause, item=i, got=r.value, want=w, **detail)
+                if stop_at_first:
+                    return False
+        return False
+
     def fail(self, clause, **detail):
         self.fails.append((clause, {k: _short(v, 600) if not isinstance(v, (int, bool, float, list, dict, type(None))) else v
                                     for k, v in detail.items()}))
